@@ -21,7 +21,13 @@ fn main() {
         "C05" => checks::c05::run(&mut rep),
         "C06" => checks::c06::run(&mut rep),
         "C07" => checks::c07::run(&mut rep),
-        "C08" => checks::c08::run(&mut rep),
+        "C08" => {
+            if std::env::var("VERIF_C08_THREADS_ONLY").is_ok() {
+                checks::c08::run_threads_only(&mut rep)
+            } else {
+                checks::c08::run(&mut rep)
+            }
+        }
         "C09" => checks::c09::run(&mut rep),
         "C10" => checks::c10::run(&mut rep),
         "C11" => checks::c11::run(&mut rep),
